@@ -233,6 +233,18 @@ def c10_d(ctx):
         if isinstance(n, ast.Attribute) and isinstance(n.ctx, ast.Store) and \
                 n.attr.startswith('_rbf_'):
             written.add(n.attr)
+    # the cache function refreshes every field on every call: the GP can change in place
+    # (optimize()), so no field may be kept under a condition on the GP object or on itself
+    g_cf = cfg_of(cf)
+    for n in own_nodes(cf.node):
+        if isinstance(n, ast.Assign) and isinstance(n.targets[0], ast.Attribute) and \
+                n.targets[0].attr.startswith('_rbf_') and n.targets[0].attr != '_rbf_is_cached':
+            ctx.check(g_cf.must_pass([ctx.node(cf, n)]), cf,
+                      'cached field {} refreshed on every call'.format(n.targets[0].attr),
+                      'unconditional store',
+                      '{} is refreshed only under a condition: after an in-place change of the GP '
+                      '(optimize()) new kernel parameters are combined with stale cached terms'
+                      .format(n.targets[0].attr), fn=cf, node=n)
     guards = {}
     for name in ('predict', 'predictive_gradients'):
         m = ctx.own_method(gp, name)
